@@ -280,14 +280,24 @@ func (gs *GenomeSpace) runTransitions(st *gsState, op gsOp, partner *gsState, fi
 	if op.Struct {
 		regimes = []string{"shared", "fresh"}
 	}
+	if (op.Name == "addLink" || op.Name == "connectSensors") && len(st.Spec.Traits) > 0 && len(st.Spec.Modules) == 0 {
+		// a record that already knows every link the genome lacks, under numbers that fall before,
+		// between and after the genome's own genes
+		regimes = append(regimes, "old")
+	}
 	seenExec := map[uint64]bool{}
 	for _, regime := range regimes {
 		for _, pn := range pols {
 			ex := &Explorer{Policy: parsePolicy(pn), MaxDev: dev, Horizon: 300, Stop: gs.c.Expired}
 			ex.Body = func(x *Exec) {
-				g := st.Spec.Build()
+				spec := st.Spec
+				var oldObs *searchObserver
+				if regime == "old" {
+					spec, oldObs = oldRecordCase(st.Spec, gs.obs.nextNode+2000)
+				}
+				g := spec.Build()
 				var pg *genetics.Genome
-				t := &gsTransition{Op: op.Name, FitOrder: fitOrder, Before: st.Spec, Regime: regime, x: x}
+				t := &gsTransition{Op: op.Name, FitOrder: fitOrder, Before: spec, Regime: regime, x: x}
 				if partner != nil {
 					pg = partner.Spec.Build()
 					t.Partner = partner.Spec
@@ -296,6 +306,9 @@ func (gs *GenomeSpace) runTransitions(st *gsState, op gsOp, partner *gsState, fi
 				obs := gs.obs
 				if regime == "fresh" {
 					obs = gs.obs.fresh()
+				}
+				if oldObs != nil {
+					obs = oldObs
 				}
 				before := obs.dump
 				_ = before
@@ -358,6 +371,40 @@ func (gs *GenomeSpace) runTransitions(st *gsState, op gsOp, partner *gsState, fi
 	}
 }
 
+// oldRecordCase renumbers the genes of s to 100, 200, ... (order kept) and builds a record that holds a
+// link innovation for every ordered node pair (non-sensor target, both recurrence flags) the genome
+// does not join, numbered so that the numbers fall into every gap of the gene list in turn
+// (before the first gene, between two genes, after the last).
+func oldRecordCase(s *GenomeSpec, nextNode int) (*GenomeSpec, *searchObserver) {
+	c := *s
+	c.Genes = append([]GeneSpec(nil), s.Genes...)
+	have := map[linkKey]bool{}
+	for i := range c.Genes {
+		c.Genes[i].Innov = int64(100 * (i + 1))
+		have[linkKey{c.Genes[i].In, c.Genes[i].Out, c.Genes[i].Rec}] = true
+	}
+	n := len(c.Genes)
+	obs := &searchObserver{nextInnov: int64(100*(n+1) + 1000), nextNode: nextNode}
+	idx := 0
+	for _, a := range c.Nodes {
+		for _, b := range c.Nodes {
+			if isSensorRole(b.Role) {
+				continue
+			}
+			for _, rec := range []bool{false, true} {
+				if have[linkKey{a.ID, b.ID, rec}] {
+					continue
+				}
+				slot := idx % (n + 1)
+				num := int64(100*slot + 1 + idx/(n+1))
+				obs.inns = append(obs.inns, *genetics.NewInnovationForRecurrentLink(a.ID, b.ID, num, 0.5+float64(idx), 0, rec))
+				idx++
+			}
+		}
+	}
+	return &c, obs
+}
+
 // violate reports a violation on transition t with a self-contained replay.
 func (gs *GenomeSpace) violate(t *gsTransition, clause, msg string) {
 	gsViolate(gs.c, gs.cfg.Prop, t, clause, msg)
@@ -384,7 +431,7 @@ func gsViolate(c *Ctx, prop string, t *gsTransition, clause, msg string) {
 		pj, _ := json.Marshal(t.Partner)
 		params["partner"] = json.RawMessage(pj)
 	}
-	if t.obsDump != nil && t.Regime == "shared" {
+	if t.obsDump != nil && (t.Regime == "shared" || t.Regime == "old") {
 		recs, ni, nn := t.obsDump()
 		rj, _ := json.Marshal(recs)
 		params["record"] = json.RawMessage(rj)
